@@ -96,10 +96,13 @@ def run_rule(case) -> CaseResult:
     m = Fr(*case["mult"]); r = Fr(*case["ratio"])
     n = 0
     nt = 0
-    for L in case["depths"]:
+    shared = transformer_residual_scaling_rule(float(m), float(r))  # one rule object queried for many depths, as the stacks' shared default is
+    for k_, L in enumerate(case["depths"]):
         try:
-            rule = transformer_residual_scaling_rule(float(m), float(r))
-            taus = [rule(i, 2 * L) for i in range(2 * L)]
+            rule = shared if k_ % 2 == 0 else transformer_residual_scaling_rule(float(m), float(r))
+            order = range(2 * L) if k_ % 3 else reversed(range(2 * L))
+            got = {i: rule(i, 2 * L) for i in order}
+            taus = [got[i] for i in range(2 * L)]
         except Exception as e:  # noqa: BLE001
             res.fail(exc_bucket("C07.rule.raises", e), f"{e} (layers={L}, mult={m}, ratio={r})")
             continue
